@@ -89,6 +89,9 @@ func verifSameLeaf(dec, node *btreeNode, n int) {
 // H12-leaf: encode yields exactly one page and decode gives back the same node.
 func verifH_C12_leaf() {
 	n := verifParam("cells", 2)
+	if n < 0 {
+		n = maxLeafNodeCells - n - 2
+	}
 	base := verifValLens[verifChoice("baseLen", len(verifValLens))]
 	odd, oddLen := -1, 0
 	if n > 0 && verifChoice("hasOdd", 2) == 1 {
@@ -113,6 +116,11 @@ func verifH_C12_leaf() {
 // H12-internal: same for internal nodes with k separators.
 func verifH_C12_internal() {
 	k := verifParam("cells", 2)
+	if k < 0 {
+		// relative to the capacity the code declares: -1 = the largest node the tree
+		// keeps (one below the split threshold), -2 = the threshold itself
+		k = maxInternalNodeCells - k - 2
+	}
 	dead := verifParam("dead", 0)
 	node := &btreeNode{}
 	node.fileOffset = verifU64("fileOffset")
